@@ -8,6 +8,6 @@ CONSTANTS
   MaxFlight = 2
   D = 24
 INIT Init
-NEXT NextRef
+NEXT NextRefFlight
 INVARIANT Export
 CHECK_DEADLOCK FALSE
